@@ -44,11 +44,20 @@ async def run_bt_async(D: dict, suspend: str = "sleep0", seed: int = 0, dup_subs
             super().__init__(when)
             self.vid, self.src = vid, src
 
+    zones = [UTC, datetime.timezone(datetime.timedelta(hours=-5)), datetime.timezone(datetime.timedelta(hours=2)),
+             datetime.timezone(datetime.timedelta(hours=5, minutes=30))]
+
+    def Z(when: datetime.datetime) -> datetime.datetime:
+        """The same instant expressed in some other UTC offset (applications pass aware datetimes of any zone)."""
+        return when.astimezone(rng.choice(zones)) if D.get("zones", True) else when
+
     sources = []
     for s in range(1, D["ns"] + 1):
-        evs = [Ev(T(t), 100 * s + k, s) for k, t in enumerate(D["evs"][s - 1], start=1)]
+        evs = [Ev(Z(T(t)), 100 * s + k, s) for k, t in enumerate(D["evs"][s - 1], start=1)]
         events.extend({"id": e.vid, "src": s, "when": tick(e.when)} for e in evs)
         sources.append(bsevent.FifoQueueEventSource(events=evs))
+        if evs and rng.random() < 0.3:
+            evs.clear()          # the caller's list is the caller's: reusing / emptying it afterwards must not affect the source
 
     def now_tick():
         try:
@@ -76,7 +85,7 @@ async def run_bt_async(D: dict, suspend: str = "sleep0", seed: int = 0, dup_subs
                 state["njobs"] += 1
                 when = d.now() + e["delta"] * TICK
                 sched.append({"id": jid, "when": tick(when), "at": len(log), "late": tick(when) < now_tick()})
-                d.schedule(when, make_job(e["prog"], tick(when), jid))
+                d.schedule(Z(when), make_job(e["prog"], tick(when), jid))
             elif op == "raise":
                 if D.get("stopOnErr"):
                     state["stop_requested"] = True
@@ -114,7 +123,28 @@ async def run_bt_async(D: dict, suspend: str = "sleep0", seed: int = 0, dup_subs
                 log.append({"kind": "job", "ev": 0, "src": 0, "when": when, "h": pid, "stage": 2, "seg": k,
                             "clock": now_tick(), "job": jid})
                 apply(effs)
-        return job
+
+        # jobs are "callables returning an awaitable": besides coroutine functions, plain functions / lambdas / partials
+        # that do their first segment when CALLED (and may raise there) and return the rest as a coroutine
+        kind = rng.choice(["async", "async", "factory", "sync_first"])
+        if kind == "async":
+            return job
+        if kind == "factory":
+            return lambda: job()
+
+        def job_sync_first():
+            log.append({"kind": "job", "ev": 0, "src": 0, "when": when, "h": pid, "stage": 2, "seg": 1,
+                        "clock": now_tick(), "job": jid})
+            apply(prog[0])
+
+            async def rest():
+                for k, effs in enumerate(prog[1:], start=2):
+                    await suspend_point()
+                    log.append({"kind": "job", "ev": 0, "src": 0, "when": when, "h": pid, "stage": 2, "seg": k,
+                                "clock": now_tick(), "job": jid})
+                    apply(effs)
+            return rest()
+        return job_sync_first if prog else job
 
     import functools
 
@@ -158,7 +188,7 @@ async def run_bt_async(D: dict, suspend: str = "sleep0", seed: int = 0, dup_subs
         if dup_subscriptions and rng.random() < 0.3:
             d.subscribe_all(h.on_event)
     for k, j in enumerate(D["jobs"], start=1):
-        d.schedule(T(j["when"]), make_job(j["prog"], j["when"], k))
+        d.schedule(Z(T(j["when"])), make_job(j["prog"], j["when"], k))
 
     async def releaser():
         # resolves pending suspension futures one at a time in a seeded random order
